@@ -304,6 +304,10 @@ func insertArrayValue(target []r.Element, idx int, insertItem r.Element) []r.Ele
 
 	if idx < 0 {
 		idx = len(target) + idx
+		// still before the first item: insert at the beginning
+		if idx < 0 {
+			idx = 0
+		}
 	}
 	result = append(result, target[:idx]...)
 	result = append(result, insertItem)
